@@ -616,7 +616,7 @@ fn wide_twin(run: &mut Run) -> u64 {
 /// compared with the same reference as the BFS.
 fn long_stacks(run: &mut Run) -> u64 {
     let quick = run.quick();
-    let sizes: Vec<usize> = if quick { vec![254, 255, 256, 257, 300] } else { vec![126, 127, 128, 129, 254, 255, 256, 257, 258, 300, 511, 512, 513, 1000] };
+    let sizes: Vec<usize> = if quick { (8usize..=130).chain([254, 255, 256, 257, 300]).collect() } else { (8usize..=300).chain([511, 512, 513, 1000, 1009]).collect() };
     let mut n = 0u64;
     for &len in &sizes {
         let vals: Vec<u8> = (0..len).map(|i| (i % 251) as u8).collect();
